@@ -402,7 +402,7 @@ pub fn gen_corpus(seed: u64, nprog_fam: usize, ntrees: usize) -> Corpus {
     // trees: groups of three use the same seed for names/layout decisions where possible, so the
     // same include names are looked up from different directories
     for t in 0..ntrees {
-        let layout = inctree::Layout { base: format!("trees/{}/", t), cwd: Some(CWD.into()), w_prefix: format!("t{}_", t), msg_tag: Some(format!("T{}m", t)) };
+        let layout = inctree::Layout { chain_depth: None, base: format!("trees/{}/", t), cwd: Some(CWD.into()), w_prefix: format!("t{}_", t), msg_tag: Some(format!("T{}m", t)) };
         // trees 3k, 3k+1, 3k+2 are one family: same program pool tag through the same seed high bits
         let fam = t / 3;
         let tseed = mix(seed, &[0x7EE, fam as u64]) ^ ((t % 3) as u64).wrapping_mul(0x9E3779B97F4A7C15);
@@ -415,9 +415,22 @@ pub fn gen_corpus(seed: u64, nprog_fam: usize, ntrees: usize) -> Corpus {
         c.entries.insert(id.clone(), tree_entry(&sc, &format!("T{}", fam)));
         c.families.entry(format!("T{}", fam)).or_default().push(id);
     }
+    // deep include chains (many files open at once), one family
+    for (j, depth) in [12usize, 17, 9].iter().enumerate() {
+        let t = ntrees + j;
+        let layout = inctree::Layout { chain_depth: Some(*depth), base: format!("trees/{}/", t), cwd: Some(CWD.into()), w_prefix: format!("t{}_", t), msg_tag: Some(format!("T{}m", t)) };
+        let sc = inctree::scenario_with(mix(seed, &[0xC4A1, j as u64]), t as u64, &layout);
+        let id = format!("t{}", t);
+        c.tree_files.insert(id.clone(), sc.files.keys().cloned().collect());
+        for (k, v) in &sc.files {
+            c.files.insert(k.clone(), v.clone());
+        }
+        c.entries.insert(id.clone(), tree_entry(&sc, "TC"));
+        c.families.entry("TC".to_string()).or_default().push(id);
+    }
     // private trees, one per thread slot, with versions that rewrite one included file
     for slot in 0..4usize {
-        let layout = inctree::Layout { base: format!("priv/{}/", slot), cwd: Some(CWD.into()), w_prefix: format!("v{}_", slot), msg_tag: Some(format!("V{}m", slot)) };
+        let layout = inctree::Layout { chain_depth: None, base: format!("priv/{}/", slot), cwd: Some(CWD.into()), w_prefix: format!("v{}_", slot), msg_tag: Some(format!("V{}m", slot)) };
         // a tree that builds and has at least one include is wanted: try a few seeds
         let mut chosen: Option<inctree::Scenario> = None;
         for k in 0..12u64 {
